@@ -44,7 +44,19 @@ DedupT(kids) == IF Len(kids) = 0 THEN <<>> ELSE
 InsertAt(seq, pos, x) ==   \* Python list.insert(pos, x) with 0-based pos (past the end appends)
   IF pos >= Len(seq) THEN Append(seq, x) ELSE SubSeq(seq, 1, pos) \o <<x>> \o SubSeq(seq, pos + 1, Len(seq))
 
+\* per-path overrides (config [rules] / [keys]) for the keys of the root Hash: cfg.rules / cfg.keys are
+\* sequences of [k, mode] / [k, idkey]; cfg.lvl = 0 at the document root
+RulesOf(cfg) == IF "rules" \in DOMAIN cfg THEN cfg.rules ELSE <<>>
+KeysOf(cfg) == IF "keys" \in DOMAIN cfg THEN cfg.keys ELSE <<>>
+LvlOf(cfg) == IF "lvl" \in DOMAIN cfg THEN cfg.lvl ELSE 0
+Deeper(cfg) == IF "lvl" \in DOMAIN cfg THEN [cfg EXCEPT !.lvl = 1] ELSE cfg
+RuleFor(cfg, k) == LET R == RulesOf(cfg) hit == {j \in 1..Len(R) : R[j].k = k} IN
+                   IF LvlOf(cfg) # 0 \/ hit = {} THEN "" ELSE R[CHOOSE j \in hit : TRUE].mode
+IdKeyFor(cfg, k) == LET K == KeysOf(cfg) hit == {j \in 1..Len(K) : K[j].k = k} IN
+                    IF LvlOf(cfg) # 0 \/ hit = {} THEN cfg.idkey ELSE K[CHOOSE j \in hit : TRUE].idkey
+
 RECURSIVE MergeVal(_, _, _)
+RECURSIVE MergeValAt(_, _, _, _)
 RECURSIVE MergeMaps(_, _, _)
 RECURSIVE MapFold(_, _, _, _, _, _)
 RECURSIVE AoHFold(_, _, _, _, _)
@@ -62,7 +74,7 @@ MapFold(st, r, j, cfg, dummy1, dummy2) ==
                         !.kids = LET G[i \in 0..Len(st.buf)] == IF i = 0 THEN st.m.kids ELSE InsertAt(G[i - 1], st.pos + i - 1, st.buf[i].v) IN G[Len(st.buf)]],
                       pos |-> st.pos + Len(st.buf)]
           cur == ValOf(flushed.m, kr)
-          mv == MergeVal(cur, val, cfg)
+          mv == MergeValAt(cur, val, cfg, kr.v)
           at == CHOOSE x \in KeyPosT(flushed.m, kr) : TRUE
       IN IF ~mv.ok THEN [st EXCEPT !.ok = FALSE]
          ELSE MapFold([m |-> [flushed.m EXCEPT !.kids[at] = mv.tr], buf |-> <<>>, pos |-> flushed.pos + 1, ok |-> TRUE,
@@ -141,6 +153,21 @@ MergeVal(l, r, cfg) ==
     (IF cfg.aoh = "left" THEN MOK(l) ELSE IF cfg.aoh = "right" THEN MOK(r) ELSE MergeAoH(l, r, cfg))
   ELSE IF r.k = "seq" THEN MergeLists(l, r, cfg)
   ELSE MOK(r)                                   \* right-hand scalars override
+
+\* ---- the same, for a key of the root Hash that a per-path rule / identity key names (precedence: rules > CLI) ----
+MergeValAt(l, r, cfg, k) ==
+  LET rule == RuleFor(cfg, k) idk == IdKeyFor(cfg, k) inner == Deeper(cfg) IN
+  IF rule = "" /\ idk = cfg.idkey THEN MergeVal(l, r, inner)
+  ELSE IF r.k = "map" THEN
+    (LET m == IF rule = "" THEN cfg.hashes ELSE rule IN
+     IF m = "left" THEN MOK(l) ELSE IF m = "right" THEN MOK(r) ELSE MergeMaps(l, r, inner))
+  ELSE IF r.k = "set" THEN MergeVal(l, r, [inner EXCEPT !.sets = IF rule = "" THEN @ ELSE rule])
+  ELSE IF IsAoHTree(r) THEN MergeVal(l, r, [inner EXCEPT !.aoh = IF rule = "" THEN @ ELSE rule, !.idkey = idk])
+  ELSE IF r.k = "seq" THEN
+    \* a plain Array: a left/right rule short-circuits (rule_merge_mode), any other rule is its array mode
+    (IF rule = "left" THEN MOK(l) ELSE IF rule = "right" THEN MOK(r)
+     ELSE MergeLists(l, r, [inner EXCEPT !.arrays = IF rule = "" THEN @ ELSE rule]))
+  ELSE (IF rule = "left" THEN MOK(l) ELSE MOK(r))
 
 \* ---- the document roots (merge_with / _insert_dict / _insert_list / _insert_set / _insert_scalar) ----
 IsNullT(x) == x.k = "s" /\ x.t = "null"
